@@ -271,6 +271,9 @@ pub fn handle(s: &mut Session, rest: &str) -> String {
                 "as_symbol" => o.as_symbol().map(|v| format!("V {}", escape(&v))).unwrap_or_else(e),
                 "i64" => i64::try_from(o).map(|v| format!("V {}", v)).unwrap_or_else(e),
                 "f64" => f64::try_from(o).map(|v| format!("V {:016x}", v.to_bits())).unwrap_or_else(e),
+                "i64_ref" => i64::try_from(&o).map(|v| format!("V {}", v)).unwrap_or_else(e),
+                "f64_ref" => f64::try_from(&o).map(|v| format!("V {:016x}", v.to_bits())).unwrap_or_else(e),
+                "opt_f64" => Option::<f64>::try_from(o).map(|v| format!("V {}", v.map(|x| format!("{:016x}", x.to_bits())).unwrap_or_else(|| "None".into()))).unwrap_or_else(e),
                 "string" => String::try_from(o).map(|v| format!("V {}", escape(&v))).unwrap_or_else(e),
                 "bool" => format!("V {}", bool::from(o)),
                 "opt_i64" => Option::<i64>::try_from(o).map(|v| format!("V {:?}", v)).unwrap_or_else(e),
